@@ -514,6 +514,85 @@ func TestVerifC11(t *testing.T) {
 		emit(L, D, true, true)
 	}
 
+	// 1. volume: hundreds of committed transactions sharing one LastValid (the per-LastValid lists
+	// of loadFromDisk start at initialLastValidArrayLen = 256 entries and are grown by doubling, also
+	// across rounds), flushed to the tracker DB and reloaded; every one of them is probed afterwards
+	{
+		vr := vNewRand(1107)
+		nvol := vEnvInt("VERIF_C11_VOL", 4)
+		for v := 0; v < nvol; v++ {
+			L, D := uint64(8), uint64(vr.Intn(3))
+			w.reset(vc11Proto(L, D, true, true))
+			nextID := uint64(1)
+			var all []vc11Tx
+			mk := func(n int, fv, lv uint64) []vc11Tx {
+				txs := make([]vc11Tx, 0, n)
+				for i := 0; i < n; i++ {
+					x := vc11Tx{id: nextID, fv: fv, lv: lv, snd: uint64(1 + vr.Intn(3))}
+					if vr.Intn(40) == 0 {
+						x.lease = 1000 + nextID // distinct leases: never two holders
+					}
+					nextID++
+					txs = append(txs, x)
+				}
+				all = append(all, txs...)
+				return txs
+			}
+			nA := 300 + vr.Intn(301) // 300..600 sharing LastValid 7, spread over blocks 1 and 2
+			cut := 1 + vr.Intn(nA-1)
+			if v%2 == 0 {
+				cut = nA // all in one block
+			}
+			b1 := mk(cut, 1, 7)
+			b1 = append(b1, mk(255, 0, 5)...) // control: one below the initial capacity
+			w.opBlock(b1)
+			b2 := mk(nA-cut, 2, 7)
+			b2 = append(b2, mk(257, 1, 6)...) // one above
+			w.opBlock(b2)
+			b3 := mk(256, 3, 8) // control: exactly the initial capacity
+			if v%3 == 2 {
+				b3 = append(b3, mk(513, 3, 9)...) // two doublings
+			}
+			w.opBlock(b3)
+			w.opCommitted(3)
+			off := uint64(3)
+			if v%4 == 1 {
+				off = 2 // block 3 comes back through the replay instead of the table
+			}
+			w.opCommit(off)
+			probeAll := func() {
+				cur := uint64(w.latest()) + 1
+				for i, x := range all {
+					w.opProbe(cur, x.fv, x.lv, x.id, x.snd, x.lease)
+					if i%16 == 0 {
+						w.opProbe(cur, x.fv, x.lv, x.id+1000000, x.snd, 0)   // near miss: fresh id
+						w.opProbe(cur, x.fv, x.lv+1, x.id, x.snd, 0)          // same id, other LastValid
+					}
+				}
+			}
+			if v == 0 {
+				probeAll() // before the restart as well
+			}
+			if !w.opRestart(3) {
+				t.Fatalf("volume history %d: loadFromDisk failed", v)
+			}
+			probeAll()
+			w.opDump()
+			w.opBlock(mk(3, 4, 9))
+			w.opCommitted(4)
+			if v%2 == 1 { // a second flush and restart: rounds 1..4 all come from the table now
+				w.opCommit(uint64(w.latest()) - uint64(w.dbRound))
+				if !w.opRestart(4) {
+					t.Fatalf("volume history %d: second loadFromDisk failed", v)
+				}
+			}
+			probeAll()
+			emit(L, D, true, true)
+			st["volume_histories"]++
+			st["volume_txs"] += len(all)
+		}
+	}
+
 	rnd := vNewRand(11)
 	n := vEnvInt("VERIF_C11_N", 1500)
 	maxOps := vEnvInt("VERIF_C11_OPS", 40)
